@@ -27,6 +27,9 @@ type meshOpts struct {
 	extra              func(i int, spec *nodeSpec) // per node config tweaks
 	noFaults           bool
 	forceLH            bool // node 0 is a lighthouse, the others discover each other through it
+	v6Overlay          bool // some v2 nodes also get an IPv6 overlay network
+	nameFn             func(i int) string // certificate names
+	withDNS            bool // nodes build their DNS responder (the socket is never opened)
 	forceRelay         bool // node 0 is lighthouse+relay and every endpoint pair lacks a direct path
 	secondRelay        bool // the last node is a second relay (not a lighthouse), advertised by the endpoints too
 }
@@ -66,6 +69,7 @@ func underlayAddr(i int, alt int) netip.AddrPort {
 func buildMesh(rc *sk.RunCtx, o meshOpts) *meshWorld {
 	tp := rc.Tape
 	w := newSimWorld(rc)
+	w.withDNS = o.withDNS
 	mw := &meshWorld{simWorld: w, sent: map[uint64]*sentPkt{}, delivered: map[uint64]int{}, opts: o}
 	n := o.minNodes + tp.Choose(o.maxNodes-o.minNodes+1)
 	curve := cert.Curve_CURVE25519
@@ -129,7 +133,14 @@ func buildMesh(rc *sk.RunCtx, o meshOpts) *meshWorld {
 				versions = []cert.Version{cert.Version1, cert.Version2}
 			}
 		}
-		spec.id = newSimIdentity(mw.ca, versions, spec.name, mw.notBefore, mw.notAfter, spec.nets, nil, []string{"g" + fmt.Sprint(i%2)})
+		if o.v6Overlay && len(versions) == 1 && versions[0] == cert.Version2 && tp.Chance(1, 2) {
+			spec.nets = append(spec.nets, netip.PrefixFrom(netip.AddrFrom16([16]byte{0xfd, 0, 0, 0, 0, 0, 0, 0, 0, 0, 0, 0, 0, 0, 0, byte(i + 1)}), 64))
+		}
+		certName := spec.name
+		if o.nameFn != nil {
+			certName = o.nameFn(i)
+		}
+		spec.id = newSimIdentity(mw.ca, versions, certName, mw.notBefore, mw.notAfter, spec.nets, nil, []string{"g" + fmt.Sprint(i%2)})
 		spec.static = map[string][]string{}
 		spec.extra = map[string]any{"handshakes": map[string]any{"try_interval": ti.String()}}
 		if mw.useLH {
